@@ -110,6 +110,7 @@ static uint64_t run_basisfiles(const TinyLP& t, int outside, int names, int cpx,
    }
    unlink(f.c_str());
    c.count("lp_x_filecfg");
+   if(c.wantSample() && bases.size() > 3) c.sample("{\"lp\":" + t.json() + ",\"file_config\":" + jstr(cfgs) + ",\"valid_bases_written_and_read\":" + std::to_string(bases.size() + 1) + "}");
    return h;
 }
 
